@@ -15,6 +15,11 @@ pub mod fax {
     pub broadcast axiom fn ax_div_obeys() ensures #[trigger] <f32 as DivSpec>::obeys_div_spec();
     pub broadcast axiom fn ax_eq_obeys() ensures #[trigger] <f32 as PartialEqSpec>::obeys_eq_spec();
     pub broadcast axiom fn ax_ord_obeys() ensures #[trigger] <f32 as PartialOrdSpec>::obeys_partial_cmp_spec();
+    // Casts and negation: Verus gives `x as f32` / `x as i64` an unspecified result and rejects unary minus on
+    // floats, so the extraction rewrites them to named total functions (logged as rewrites S with the site count).
+    pub uninterp spec fn i2f(i: i64) -> f32;
+    pub uninterp spec fn f2i(x: f32) -> i64;
+    pub uninterp spec fn fneg_spec(x: f32) -> f32;
     pub broadcast group a1 {
         ax_add_req, ax_sub_req, ax_mul_req, ax_div_req, ax_add_obeys, ax_sub_obeys, ax_mul_obeys, ax_div_obeys,
         ax_eq_obeys, ax_ord_obeys,
@@ -22,11 +27,7 @@ pub mod fax {
 }
 // (each unit writes its single module-level `broadcast use` naming fax::a1 plus its own literal-fact groups)
 
-// Casts and negation: Verus gives `x as f32` / `x as i64` an unspecified result and rejects unary minus on floats, so
-// the extraction rewrites them to these named total functions (logged as rewrites S with the site count).
-pub uninterp spec fn i2f(i: i64) -> f32;
-pub uninterp spec fn f2i(x: f32) -> i64;
-pub uninterp spec fn fneg_spec(x: f32) -> f32;
+pub use fax::{i2f, f2i, fneg_spec};
 #[verifier::external_body]
 pub fn i64_to_f32(i: i64) -> (r: f32) ensures r == i2f(i) { i as f32 }
 #[verifier::external_body]
